@@ -100,11 +100,9 @@ class MeasurementOutcomeDistribution:
         if len(active_qubits) != len(set(active_qubits)):
             raise ValueError("There exist duplicate indices in the active qubit list")
 
-        for key in copy.deepcopy(list(self.distribution_dict.keys())):
+        for key, value in self.distribution_dict.items():
             new_key = "".join(str(key[i]) for i in active_qubits)
-            new_counts[new_key] = self.distribution_dict.pop(key) + new_counts.get(
-                new_key, 0
-            )
+            new_counts[new_key] = value + new_counts.get(new_key, 0)
         normalize = is_normalized(self.distribution_dict)
         return MeasurementOutcomeDistribution(new_counts, normalize=normalize)
 
